@@ -134,6 +134,10 @@ STREAM_HANDLE_OPS = ("cn_resp", "cn_read", "cn_rtrailers", "cn_pollcap", "cn_pol
 AFTER_END_OPS = ("cn_resp", "cn_read", "cn_rtrailers", "cn_pollcap", "cn_pollreset", "cn_ready", "cn_pollpong", "cn_info")
 
 
+# the waker slot (digest flag) each pollable handle operation parks its task in
+PENDING_SLOT = {"cn_pollcap": "t", "cn_pollreset": "t", "cn_resp": "u", "cn_read": "u", "cn_rtrailers": "u", "cn_info": "u"}
+
+
 def mon_conn(ops, impl):
     """monitor script for the wire-level reference monitors (H2V/Spec/Wire.lean) from a trace of the real connection"""
     out = []
@@ -231,6 +235,13 @@ def mon_conn(ops, impl):
             cap_wait.pop(int(w[1]), None)      # polled again and answered: the wait is over
         if w[0] in ("cn_drop", "cn_reset") and len(w) > 1 and w[1].isdigit():
             cap_wait.pop(int(w[1]), None)
+        # C06/C16: a poll that tells its task to wait has registered that task's waker on the stream
+        if r == "pending" and w[0] in PENDING_SLOT and len(w) > 1 and w[1].isdigit() and int(w[1]) < len(slots) \
+                and st not in ("-", "gone", ""):
+            segs = [seg.split(":", 1)[1].split(",") for seg in st.split("|") if seg.startswith(f"S{slots[int(w[1])]}:")]
+            if segs:
+                reg = any(PENDING_SLOT[w[0]] in f[-1] for f in segs)
+                out.append((i, f"mon_cn pendreg {w[0]} {int(reg)}"))
         # C15: how the connection future completes vs the peer's last GOAWAY
         if w[0] == "cn_peer":
             for f in (_f(a, "rx=").split(";") if _f(a, "rx=") != "-" else []):
@@ -338,6 +349,7 @@ CONN_BASE = {
     "monitor_tagged": True,
     "conn_compare": True,
     "history_starts": ("cn_new",),
+    "corpus": ["conn"],
 }
 
 
@@ -632,7 +644,7 @@ PROPS["C01"].update({
 # reports a stable green build (files still being worked on must not be able to break a registered check):
 # candidates: ("C01", "C01Streams"), ("C08", "C08NoPanic"), ("C06", "C06Drain"), ("C15", "C15Cover"),
 #             ("C16", "C16Cover"), ("C09", "C09Cover"), ("C03", "C03Cover")
-REGISTERED_EXTRAS = []
+REGISTERED_EXTRAS = [("C01", "C01Streams"), ("C08", "C08NoPanic")]
 for _pid, _extra in REGISTERED_EXTRAS:
     if _load_theorems(_extra):
         PROPS[_pid]["theorems"] = PROPS[_pid]["theorems"] + _load_theorems(_extra)
